@@ -671,6 +671,77 @@ def replay_behaviour(tid, states, no_listen=(), then_stop=()):
     return w, rec, drift
 
 
+TRANSIT_RELAY_PORT = 4801
+
+
+def relay_case(tid, has_relay, cuts, units_first=False):
+    """Neither side can be dialled (no_listen on both): the only path is a transit relay, configured on the sides in
+    `has_relay` (the other side learns it from the peer's hints - the same hint in every generation).  Connect, then `cuts`
+    times: the network cuts the Leader's leg, everything is run out fairly.  At rest the two sides must be connected to
+    each other again (the relay legs are not connections "between the two Connectors", so the proviso never applies)."""
+    from .transit_select import RelayStub
+    from twisted.internet import protocol as tproto
+    w = FullWorld(variant=tid, no_listen=("L", "F"))
+    w.units_first = units_first
+    RelayStub.waiting = {}
+    stub = type("DilRelayStub", (RelayStub,), {"waiting": {}})
+    reactor.listenTCP(TRANSIT_RELAY_PORT, tproto.Factory.forProtocol(stub))
+    w.dilate_kwargs_by_side = {n: {"transit_relay_location": "tcp:10.9.9.9:%d" % TRANSIT_RELAY_PORT} for n in has_relay}
+    w.schedule.append(["relay-only", sorted(has_relay), cuts, units_first])
+    try:
+        w.do(("AppDilate", "L", 0))
+        w.do(("AppDilate", "F", 0))
+        rested = w.run_out()
+        first = w.state()
+        for _ in range(cuts):
+            sel = w.selected_links("L")
+            if not sel:
+                break
+            w.do(("Cut", "-", sel[0]))
+            rested = w.run_out() and rested
+    except Exception as e:
+        rested = False
+        w.internal.append("relay_case: %r" % (e,))
+        first = w.state()
+    final = w.state()
+    # the two legs the relay glued together are one peer connection: name both by the smaller link number
+    relay_end = {}
+    for i, link in w.links.items():
+        if link is None:
+            continue
+        for e in (0, 1):
+            pr = getattr(link.ends[e].protocol, "_wrappedProtocol", link.ends[e].protocol)
+            if isinstance(pr, RelayStub):
+                relay_end[id(pr)] = (i, pr)
+    canon = {}
+    for i, pr in relay_end.values():
+        j = relay_end.get(id(pr.peer), (i, None))[0] if pr.peer is not None else i
+        canon[i] = min(i, j)
+
+    def c(i):
+        return canon.get(i, i)
+    for snap in w.snaps + [{"L": final["L"], "F": final["F"], "selectedL": [], "selectedF": [], "dcp": {}}]:
+        for n in ("L", "F"):
+            snap[n]["sel"] = c(snap[n]["sel"]) if snap[n]["sel"] else 0
+        snap["selectedL"] = sorted(set(c(i) for i in snap["selectedL"]))
+        snap["selectedF"] = sorted(set(c(i) for i in snap["selectedF"]))
+        merged = {}
+        for k, v in snap["dcp"].items():
+            m = merged.setdefault(str(c(int(k))), {"L": "-", "F": "-"})
+            for n in ("L", "F"):
+                if v[n] != "-":
+                    m[n] = v[n]
+        snap["dcp"] = merged
+    internal = w.finish()
+    benign = [x for x in internal if any(b in x for b in BENIGN)]
+    rec = {"tid": tid, "snaps": w.snaps, "final": final, "internal": [x for x in internal if x not in benign], "benign": len(benign),
+           "stopCalled": {"L": False, "F": False}, "atEnd": final, "rested": bool(rested),
+           "specStopped": {"L": False, "F": False}, "convergenceDue": False,
+           "restStopDue": {"L": False, "F": False}, "restConvergenceDue": bool(rested),
+           "firstConnected": all(first[n]["mgr"] == "CONNECTED" for n in ("L", "F"))}
+    return w, rec
+
+
 def old_peer_case(tid):
     """the peer cannot dilate: pending and future subchannel connect() calls fail with OldPeerCannotDilateError"""
     from ..mbworld import MailboxWorld as MW
@@ -853,6 +924,19 @@ def run(prop, tier):
                             "restStopDue": {"L": False, "F": False}, "restConvergenceDue": False,
                             "oldpeer": {"ok": op["ok"], "closed": op["closed"]}})
             meta[tid] = {"schedule": [["old-peer-case"]], "results": op["results"]}
+        # family: the relay is the only path (nobody can be dialled), known to one side or both; reconnects through it
+        nrelay = 0
+        for has in (("L",), ("F",), ("L", "F")):
+            for cuts in ((1, 2) if quick else (0, 1, 2, 3)):
+                for uf in (False, True):
+                    tid += 1
+                    nrelay += 1
+                    w, rec = relay_case(tid, has, cuts, uf)
+                    rec["origin"], rec["config"] = "family:relay-only", "relay"
+                    rec.setdefault("oldpeer", {"ok": True, "closed": True})
+                    records.append(rec)
+                    meta[tid] = {"schedule": w.schedule, "no_listen": ["F", "L"], "traffic": False, "frag": 0}
+        cov["relay_only_cases"] = nrelay
         path = wd.file("obs.ndjson")
         with open(path, "w") as f:
             for rec in records:
